@@ -662,3 +662,12 @@ func (n *VNode) VCode(a common.Address) []byte {
 	}
 	return st.GetCode(ia)
 }
+
+// VProcessOutputs runs the real StateProcessor.Process on blk (DB at blk's parent state, throw-away
+// batch) and returns the receipts and the emitted outbound list.
+func (n *VNode) VProcessOutputs(blk *types.WorkObject) (types.Receipts, []*types.Transaction, error) {
+	batch := n.DB[2].NewBatch()
+	receipts, etxs, _, _, _, _, _, _, _, err := n.Sl[2].hc.bc.processor.Process(blk, batch)
+	batch.Reset()
+	return receipts, etxs, err
+}
